@@ -1,6 +1,6 @@
 """C08 (source tables): drive the REAL SourceRef functions and the real start of nada_dsl_to_nada_mir with operation
 sequences; print what a MIR returned at the end would embed.
-stdin: JSON {"root": dir, "cases": [[op, ...], ...]} with op = ["touch", path, text] | ["index", file, line, off, len] | ["compile"]
+stdin: JSON {"root": dir, "cases": [[op, ...], ...]} with op = ["touch", path, text, version-if-rewritten-else-0] | ["index", file, line, off, len] | ["compile"]
 stdout: JSON list of {"refs": [...], "files": {...}}.  Every case runs in THIS process, one after the other (state carries over:
 each case's expected result is computed by the model from the whole prefix)."""
 import json
@@ -18,8 +18,10 @@ for case in spec["cases"]:
         if op[0] == "touch":
             path = os.path.join(spec["root"], op[1])
             os.makedirs(os.path.dirname(path), exist_ok=True)
-            with open(path, "w", encoding="utf-8") as f:
-                f.write(op[2])
+            if op[3]:                      # the file is (re)written: a new modification stamp (op[3] = its version number)
+                with open(path, "w", encoding="utf-8") as f:
+                    f.write(op[2])
+                os.utime(path, ns=(10 ** 18 + op[3] * 10 ** 9, 10 ** 18 + op[3] * 10 ** 9))
             frame = types.SimpleNamespace(f_code=types.SimpleNamespace(co_filename=path))
             SourceRef.try_get_line_info(frame, 1)
         elif op[0] == "index":
